@@ -292,8 +292,9 @@ MANIFEST = {
                  "parameter-mutation summaries), plus enumeration of hidden-state and non-determinism sources",
     "text": "Decides for all call sequences that no function of the package writes to its arguments, to module- or class-level "
             "objects or to field objects after construction, that no in-place operator, memo (beyond three reviewed "
-            "cached_property uses), global state or non-deterministic source exists; hence results depend only on arguments "
-            "and never-written constants. An embedded positive example must be flagged on every run.",
+            "cached_property uses and memo tables proved transparent: one reader/writer, key determines the stored value by "
+            "def-use dataflow, hit used like a fresh value), global state or non-deterministic source exists; hence results "
+            "depend only on arguments and never-written constants. An embedded positive example must be flagged on every run.",
     "note": "Flow-insensitive alias tracking (over-approximate). Trusted: purity of hashlib/hmac/math/builtins; absence of "
             "dynamic features is itself checked (exec/eval/setattr flagged).",
 }
